@@ -193,6 +193,8 @@ type ATStmt struct {
 	Form byte
 	// NoCols: a plain INSERT has no column list (INSERT INTO t VALUES (...)): the values follow the table's order
 	NoCols bool
+	// Hint: an UPDATE names its table with an index hint (UPDATE t FORCE INDEX (PRIMARY) SET ...)
+	Hint bool
 	// AutoVerb: an INSERT that leaves its AUTO_INCREMENT key to the database is spelled INSERT IGNORE ('i') or REPLACE ('r')
 	AutoVerb byte
 	// Alias: an UPDATE / DELETE gives the table an alias and qualifies every column with it (UPDATE t AS a SET a.c = ...)
@@ -222,6 +224,14 @@ func (s *ATStmt) tableText(sc *ATSchema) string {
 	return sc.Table
 }
 
+// hintText: an index hint after the table reference of an UPDATE (one table all the same)
+func (s *ATStmt) hintText() string {
+	if s.Hint {
+		return " FORCE INDEX (PRIMARY)"
+	}
+	return ""
+}
+
 // spellStatements gives every statement of a case a spelling of the table name, derived from the case id
 // and the statement's position (not from the random stream): about half as created
 func spellStatements(c *ATCase) {
@@ -235,6 +245,7 @@ func spellStatements(c *ATCase) {
 			k++
 			st.RevCols = (h+3*k)%3 == 0
 			st.NoCols = (h+5*k)%4 == 1
+			st.Hint = (h+17*k)%6 == 2
 			st.AutoVerb = []byte{0, 'i', 'r'}[(h+13*k)%3]
 			st.Alias = (h+11*k)%5 == 2
 			if v := (h + 7*k) % 10; v >= 5 {
@@ -371,9 +382,9 @@ func (s *ATStmt) Render(sc *ATSchema) (string, []interface{}, string) {
 	case 'U':
 		if s.Alias && !s.HasLimit() {
 			o.colPrefix = "a."
-			o.sb.WriteString("UPDATE " + s.tableText(sc) + " AS a SET ")
+			o.sb.WriteString("UPDATE " + s.tableText(sc) + " AS a" + s.hintText() + " SET ")
 		} else {
-			o.sb.WriteString("UPDATE " + s.tableText(sc) + " SET ")
+			o.sb.WriteString("UPDATE " + s.tableText(sc) + s.hintText() + " SET ")
 		}
 		if s.HasLimit() {
 			fmt.Fprintf(&o.tok, "W%d:", len(s.Sets))
